@@ -58,6 +58,16 @@ The dialect for `ClickHouse <https://clickhouse.com/>`_.""",
 )
 clickhouse_dialect.sets("unreserved_keywords").update(UNRESERVED_KEYWORDS)
 
+# Keywords which grammar elements of this dialect (including inherited
+# ones) refer to, but which are in neither keyword set.
+clickhouse_dialect.sets("unreserved_keywords").update(
+    [
+        "MANAGEMENT",
+        "REFRESH",
+        "SETTING",
+    ]
+)
+
 clickhouse_dialect.insert_lexer_matchers(
     # https://clickhouse.com/docs/en/sql-reference/functions#higher-order-functions---operator-and-lambdaparams-expr-function
     [StringLexer("lambda", r"->", SymbolSegment)],
